@@ -95,14 +95,39 @@ def r3_own_key_trusted_by_default(cx):
     prog = cx.prog
     new = A.method(prog, "Crypto", "new")
     cx.touch(new)
+    # the locals that become Crypto.trusted_keys / Crypto.key_pair
+    from ..mirutil import aggregates
+    tk_locals, kp_locals = set(), set()
+    for (b2, bi2, s2) in aggregates(prog, "Crypto"):
+        if b2.did != new.did:
+            continue
+        rv2 = s2["rv"]
+        for fname, acc in (("trusted_keys", tk_locals), ("key_pair", kp_locals)):
+            seeds = set()
+            r2 = op_root(new, rv2["ops"][rv2["fields"].index(fname)])
+            if r2 is not None:
+                seeds.add(r2["l"])
+            # walk back through conversion calls (into_boxed_slice().into(), Arc::new)
+            cur = rv2["ops"][rv2["fields"].index(fname)]
+            for _ in range(5):
+                o2 = origin(new, cur)
+                if o2[0] == "call" and o2[2]["args"]:
+                    cur = o2[2]["args"][0]
+                    rr = deep_root(new, cur)
+                    if rr is not None:
+                        seeds.add(rr["l"])
+                else:
+                    break
+            acc |= seeds
+    cx.check("crypto-ctor-found", bool(tk_locals) and bool(kp_locals), site_of(new), "Crypto::new builds Crypto { key_pair, trusted_keys, .. }")
     pushes = []
     for ci, ct in new.calls():
         if callee_is(ct, "vec::Vec::push") and ct["args"]:
             r = deep_root(new, ct["args"][0])
-            if r is not None and new.local_name(r["l"]) == "trusted_keys":
+            if r is not None and r["l"] in tk_locals:
                 pushes.append((ci, ct))
     cx.floor("trusted-pushes", len(pushes), 2, "pushes to the trusted key list in Crypto::new")
-    empt = [(ci, ct) for ci, ct in new.calls() if callee_is(ct, "vec::Vec::is_empty") and (lambda r: r is not None and new.local_name(r["l"]) == "trusted_keys")(deep_root(new, ct["args"][0]))]
+    empt = [(ci, ct) for ci, ct in new.calls() if callee_is(ct, "vec::Vec::is_empty") and (lambda r: r is not None and r["l"] in tk_locals)(deep_root(new, ct["args"][0]))]
     cx.exact("empty-test", len(empt), 1, "is_empty tests of the trusted key list")
     if empt:
         te = success_edges(new, empt[0][0]).ok_edges
@@ -110,7 +135,7 @@ def r3_own_key_trusted_by_default(cx):
         cx.exact("own-key-push", len(own), 1, "pushes under the 'no trusted keys configured' branch")
         for ci, ct in own:
             # the pushed key is the public key of the node's own key pair
-            tainted = forward_taint(new, seed_locals=[l for l in range(len(new.locals)) if new.local_name(l) == "key_pair"], mut_args=True)
+            tainted = forward_taint(new, seed_locals=sorted(kp_locals), mut_args=True)
             r = deep_root(new, ct["args"][1])
             cx.check("own-public-key", r is not None and r["l"] in tainted, site_of(new, ci), "the key trusted by default is derived from the node's own key pair")
         others = [(ci, ct) for ci, ct in pushes if not dominated_by_edges(new, te, ci)]
